@@ -184,6 +184,13 @@ def shard_malformed(args):
     bodies += [B.metadata_replace('RO1', [T('roChannel', 'x'), E('mosExternalMetadata'), T('roChannel', 'y')]),
                B.metadata_replace('RO1', [E('story', T('storyID', 'A'))]),
                B.ro_replace('RO1', [st('N1'), noid]), B.ro_replace('RO1', [])]
+    # roMetadataReplace carrying something that is not metadata, at every position among real metadata
+    for odd in (lambda: E('story', T('storyID', 'A')), lambda: E('story', T('storyID', 'N1')), lambda: E('item', T('itemID', 'I0')),
+                lambda: E('roCreate'), lambda: E('mosExternalMetadata'), lambda: E('storyBody', P('x'))):
+        for pos in range(3):
+            pl = [T('roSlug', 'new slug'), T('roEdStart', '2020-01-01T00:00:00')]
+            pl.insert(pos, odd())
+            bodies.append(B.metadata_replace('RO1', pl))
     for body in bodies:
         case = {'ro_xml': ro_xml, 'msg_xml': B.tostring(B.envelope(body, 3100))}
         try:
@@ -203,7 +210,7 @@ def shard_malformed(args):
 def run(tier, seed, procs):
     quick = tier == 'quick'
     N, M, K = (3, 3, 3) if quick else (5, 5, 4)
-    tasks = [(MOD, n, lay, K) for n in range(0, N + 1) for lay in ('none', 'mixed')]
+    tasks = [(MOD, n, lay, K) for n in range(0, N + 1) for lay in ('none', 'mixed', 'anon')]
     cols = drive.pool_map(drive.shard_enum_story, tasks, procs)
     refs = ['TGT', '', 'ZZ-unknown-story']
     tasks = [(MOD, m, pl, K, pos, refs) for m in range(0, M + 1) for pl in ('none', 'mixed') for pos in (0, 1)]
